@@ -78,6 +78,8 @@ pub struct StateProbe {
     /// listed snapshot id -> (tree id, time)
     pub listed: BTreeMap<String, (String, i64)>,
     pub readback: BTreeMap<String, ReadBack>,
+    /// what the snapshot string "latest" resolves to: Ok((snapshot id, tree id)) or the error text
+    pub latest: Option<Result<(String, String), String>>,
     pub panic: Option<String>,
 }
 
@@ -481,6 +483,7 @@ impl Sim {
             for sn in &snaps {
                 let _ = p.listed.insert(id_hex(&sn.id), (id_hex(&sn.tree), sn.time.timestamp().as_second()));
             }
+            p.latest = Some(repo.get_snapshot_from_str("latest", |_| true).map(|sn| (id_hex(&sn.id), id_hex(&sn.tree))).map_err(|e| etext(&e)));
             match repo.to_indexed() {
                 Err(e) => p.index_err = Some(etext(&e)),
                 Ok(repo) => {
